@@ -80,7 +80,7 @@ def _golden_one(ev):
     r = ss.run_job(DRIVER, {"mode": "linear", "history": [ev], "bytes": True}, hashseed=0)
     st = r["steps"][0]
     return dict(status=st["status"], outs=st["outs"], bytes=st.get("bytes", {}), within=st["within"],
-                key=st["key"], key0=r["key0"], err=st.get("err"), impl=r.get("onnxscript"))
+                key=st["key"], key0=r["key0"], err=st.get("err"), impl=r.get("onnxscript"), tree=r.get("tree"))
 
 
 def _compute_goldens(sizes, par):
@@ -93,10 +93,27 @@ def _compute_goldens(sizes, par):
 
     res = ss.pmap(run, jobs, par)
     gold = {"events": {e: r for (k, e), r in zip(jobs, res) if k == "ev"}, "family": res[-1], "sizes": sizes}
+    trees = sorted({g.get("tree") for g in gold["events"].values()})
+    if len(trees) != 1:
+        raise TreeChanged("onnxscript source files changed while the goldens were computed: rerun")
+    gold["tree"] = trees[0]
     return gold
 
 
 _GOLD_CACHE = {}
+
+
+class TreeChanged(RuntimeError):
+    pass
+
+
+def _job(gold, job, hashseed=0):
+    """run a driver job; refuse to conclude anything when the onnxscript sources are not the ones the goldens saw"""
+    r = ss.run_job(DRIVER, job, hashseed=hashseed, timeout=3600 if job.get("mode") == "expand" else 1200)
+    want = gold.get("tree")
+    if want and r.get("tree") and r["tree"] != want:
+        raise TreeChanged("onnxscript source files changed while C14 was running (goldens are stale): rerun")
+    return r
 
 
 def _gold(item):
@@ -250,7 +267,7 @@ class _Attributor:
         k = tuple(hist)
         if k not in self.runs:
             self.n_runs += 1
-            self.runs[k] = ss.run_job(DRIVER, {"mode": "linear", "history": list(hist)}, hashseed=0)["steps"][-1]
+            self.runs[k] = _job(self.gold, {"mode": "linear", "history": list(hist)})["steps"][-1]
         return self.runs[k]
 
     def minimal(self, prefix, ev, cls):
@@ -318,6 +335,19 @@ def _check_inproc(res, verify, hist):
                            f"but {ch['status']}/{ch['key']} in a forked child")
 
 
+def _refork(gold, hist, res):
+    """a forked child that did not answer in time is a harness failure, not an outcome: execute that one
+    transition in a fresh process instead (history replayed linearly, no fork)"""
+    n = 0
+    for ev, ch in list(res["children"].items()):
+        if ch.get("status") == "fork-timeout":
+            step = _job(gold, {"mode": "linear", "history": list(hist) + [ev]})["steps"][-1]
+            step["changed"] = []
+            res["children"][ev] = step
+            n += 1
+    return n
+
+
 def _verify_event(hist):
     return EVENT_NAMES[(7 * len(hist) + sum(EVENT_NAMES.index(e) for e in hist)) % len(EVENT_NAMES)]
 
@@ -339,7 +369,7 @@ def _finish(viols, **kw):
 def _ex_hist(item):
     gold = _gold(item)
     h = item["h"]
-    res = ss.run_job(DRIVER, {"mode": "linear", "history": h}, hashseed=0)
+    res = _job(gold, {"mode": "linear", "history": h})
     attr = _Attributor(gold)
     viols = []
     outc = []
@@ -359,7 +389,8 @@ def _ex_tree(item):
     gold = _gold(item)
     h = item["h"]
     verify = _verify_event(h)
-    res = ss.run_job(DRIVER, {"mode": "expand", "history": h, "events": EVENT_NAMES, "verify": verify}, hashseed=0)
+    res = _job(gold, {"mode": "expand", "history": h, "events": EVENT_NAMES, "verify": verify})
+    fallbacks = _refork(gold, h, res)
     _check_inproc(res, verify, h)
     attr = _Attributor(gold)
     viols = []
@@ -378,7 +409,7 @@ def _ex_tree(item):
     return _finish(viols, outcome=f"tree:{nviol_children}-diverging-children",
                    nkey=["h:" + ">".join(h + [ev]) for ev in EVENT_NAMES], keys=keys,
                    counts={"events_executed": n, "extra_evaluations": n - 1, "tree_processes": 1,
-                           "forked_children": len(EVENT_NAMES), "fork_crosschecks": 1,
+                           "forked_children": len(EVENT_NAMES), "fork_crosschecks": 1, "fork_fallbacks": fallbacks,
                            "minimisation_runs": attr.n_runs},
                    show=" > ".join(h) + " > *")
 
@@ -390,7 +421,7 @@ def _ex_seed(item):
     nk = []
     ndiff = 0
     for ev in item["events"]:
-        r = ss.run_job(DRIVER, {"mode": "linear", "history": [ev], "bytes": True}, hashseed=s)
+        r = _job(gold, {"mode": "linear", "history": [ev], "bytes": True}, hashseed=s)
         step = r["steps"][0]
         g = gold["events"][ev]
         nk.append(f"s:{s}:{ev}")
@@ -421,7 +452,7 @@ def _ex_seed(item):
 def _ex_family(item):
     gold = _gold(item)
     s = item["seed"]
-    fam = ss.run_job(DRIVER, {"mode": "family", "sizes": item["sizes"]}, hashseed=s)["family"]
+    fam = _job(gold, {"mode": "family", "sizes": item["sizes"]}, hashseed=s)["family"]
     viols = []
     orders = []
     ndiff = 0
@@ -459,11 +490,13 @@ def _ex_bfs(item):
     outcomes = collections.Counter()
     nk = []
     crosschecks = [0]
+    fallbacks = [0]
     covered = collections.Counter()
 
     def expand(h):
         verify = _verify_event(h)
-        res = ss.run_job(DRIVER, {"mode": "expand", "history": h, "events": EVENT_NAMES, "verify": verify}, hashseed=0)
+        res = _job(gold, {"mode": "expand", "history": h, "events": EVENT_NAMES, "verify": verify})
+        fallbacks[0] += _refork(gold, h, res)
         _check_inproc(res, verify, h)
         crosschecks[0] += 1
         return res
@@ -497,7 +530,8 @@ def _ex_bfs(item):
                    counts={"events_executed": r["transitions"] + sum(len(h) for h in r["states"].values()),
                            "extra_evaluations": r["transitions"] - 1, "bfs_transitions": r["transitions"],
                            "bfs_expansions": r["expansions"], "forked_children": r["transitions"],
-                           "fork_crosschecks": crosschecks[0], "minimisation_runs": attr.n_runs},
+                           "fork_crosschecks": crosschecks[0], "fork_fallbacks": fallbacks[0],
+                           "minimisation_runs": attr.n_runs},
                    show=f"bfs depth<={item['depth']} cap={item.get('cap')}: {len(r['states'])} states, "
                         f"{r['transitions']} transitions, levels {r['levels']}")
 
